@@ -232,6 +232,24 @@ def generate(rng, tier):
             continue
         c, _ = enc_case(rng, m, rng.choice(DEFAULTS), False)
         yield c
+    # user data headers of every shape, well-formed or not (element walk of decode_message)
+    from spec import smpp as S
+    for _ in range(1200 if thorough else 300):
+        n_ie = rng.randrange(0, 4)
+        ies = b''
+        for _k in range(n_ie):
+            ie = rng.choice((0, 0, 8, 8, 5, 4, 1, rng.randrange(256)))
+            ln = rng.choice((3, 4, 0, 2, rng.randrange(8))) if rng.random() < 0.4 else {0: 3, 8: 4, 5: 4, 4: 2}.get(ie, 1)
+            ies += bytes([ie, ln]) + bytes(rng.randrange(256) for _j in range(ln))
+        ln = len(ies) if rng.random() < 0.7 else rng.randrange(0, len(ies) + 4)
+        udh = bytes([ln]) + ies
+        if rng.random() < 0.15:
+            udh = udh[:rng.randrange(len(udh) + 1)]
+        data = udh + bytes(rng.choice(b'abc@ 1') for _j in range(rng.randrange(4)))
+        payload = rng.random() < 0.2
+        body = S.sm_body(esm_class=rng.choice((0x40, 0x40, 0x44, 0xC0)), data_coding=rng.choice((0, 1, 3)),
+                         short_message=b'' if payload else data, tlvs=[(0x0424, data)] if payload else [])
+        yield dec_case(S.pdu(rng.choice((4, 5)), 0, rng.randrange(1, 2 ** 31), body), 'gsm0338', 'udh-fuzz')
     # malformed stream for the decoder
     for pdu, default in pdus[: (60 if thorough else 25)]:
         for bad in corruptions(rng, pdu, 60 if thorough else 25):
